@@ -60,10 +60,17 @@ def call_contract_fn(ip, c, which, params, extra=None):
             vals.append(extra[n])
         elif n in params:
             vals.append(params[n])
+        elif n.startswith('G') and n[1:] in (ip.ctx.ghost.get('globals') or {}):
+            vals.append(ip.ctx.ghost['globals'][n[1:]])
+        elif n.startswith('G_') and hasattr(ip.src.module_of(c.key), n[1:]):
+            from . import models as _m
+            vals.append(_m.hdict_from_concrete(ip, getattr(ip.src.module_of(c.key), n[1:])))
         elif which == 'ensures' and ip.ctx.ghost.get('body_env') is not None and c.key == ip.verifying:
             # a local variable of the verified body (None if the path never assigned it)
             found, v = ip.ctx.ghost['body_env'].lookup(n)
             vals.append(v if found else None)
+        elif which == 'ensures' and c.key != ip.verifying:
+            vals.append(None)        # a local of the callee's body: not visible at a call site
         else:
             raise Unsupported(f'contract {c.key}.{which}: unknown parameter {n}')
     return ip.call_ast(f, vals, {})
